@@ -93,6 +93,18 @@ func init() {
 		Stub: []string{"simfault storage wrapper around hashmap for the query-error scenario (harness code)"},
 		Assume: []string{"single client goroutine for the equality clauses: third-party libraries are never entered by two goroutines at once"},
 	}
+	c14 := *props["C02"]
+	c14.QuickRuns, c14.ThoroughRuns = 8000, 300000
+	c14.Rule = "one evaluation = one simulated run: 1-3 writer goroutines (put with secret/crown-jewel flags, delete, get, push through an injected database) against 0-4 subscriptions (prefix, condition, privileges, cancel at a chosen moment, cancel twice, two subscriptions from one query object) and 0-3 hooks (declared phases, pass/veto/replace, cancel), backend in {hashmap, fstree, bbolt}; seeded schedule; distinct = distinct hash of configuration; non-trivial = at least 2 goroutine switches"
+	c14.Stub = []string{"injected storage for the push-update path (harness code)"}
+	c14.Assume = nil
+	props["C14"] = &c14
+	c03 := *props["C02"]
+	c03.QuickRuns, c03.ThoroughRuns = 8000, 300000
+	c03.Rule = "one evaluation = one simulated run: a privileged interface writes records with every flag combination (at creation or later) and an interface with one of the three non-privileged Local/Internal combinations (with or without read cache) runs a generated sequence over get, exists, query, subscription feed, attribute insert, absolute/relative expiry, make-secret, make-crown-jewel, delete, purge, batch put, put and put-new; backend in {hashmap, fstree, bbolt} x shadow delete; after every client step the privileged view of every key is compared with the model; distinct = distinct hash of the step kinds; non-trivial = at least 2 goroutine switches"
+	c03.Stub = nil
+	c03.Assume = []string{"the injected runtime/config databases and the external database API path are not exercised by this check (the API path is part of C13's harness)"}
+	props["C03"] = &c03
 	props["C20"] = &propCfg{
 		Harness: "logsim", Pkgs: "log", QuickRuns: 4000, ThoroughRuns: 150000, RunsPerProc: 100,
 		QuickWall: 70 * time.Second, ThoroughWall: 15 * time.Minute, Level: "exploration",
